@@ -205,7 +205,7 @@ def rule_composition(chk: Check, model, rid: str, cv: CompiledView):
             chk.add(rid, "rollout:scan emits every state", ok, "the scan body must carry and emit the result of run()", chk.loc(fi, c.node))
             chk.add(rid, "rollout: same initial state in both modes", init is not None and c.args[1] == init, "carry-only and full-trajectory rollouts must start from the same state", chk.loc(fi, c.node))
     if init is not None:
-        ok = init[0] == "call" and T.call_name(init).endswith(".replace_step") and mentions(init, "replace_eps")
+        ok = _clipped_both(init)
         chk.add(rid, "rollout starts from the clipped eps/step", ok, f"rollout starts from {T.show(init)[:160]}, expected graph_state.replace_eps(...).replace_step(...)", chk.loc(fi))
     want_ret = T.mk_ite(S("carry_only"), T.mk_call("jax.lax.fori_loop", [S("x")]), T.NONE)
     chk.add(rid, "rollout returns final state / trajectory", r.ret[0] == "ite" and r.ret[1] == S("carry_only") and mentions(r.ret[2], "fori_loop") and r.ret[3][0] == "index"
@@ -290,13 +290,12 @@ def rule_clip(chk: Check, model, rid: str, cv: CompiledView):
     ev = SymEval(model)
     r = ev.run_function(fi)
     ret = r.ret
-    ok = ret[0] == "call" and T.call_name(ret).endswith(".replace_eps") and mentions(ret, "replace_step")
+    ok = _clipped_both(ret)
     chk.add(rid, "init clips starting step and episode", ok, f"Graph.init returns {T.show(ret)[:160]}, expected ....replace_step(timings, step=starting_step).replace_eps(timings, eps=...)", chk.loc(fi))
     if ok:
         rs_ = [x for x in T.walk(ret) if x[0] == "call" and T.call_name(x).endswith(".replace_step")]
         ok2 = len(rs_) >= 1 and all(dict(x[3]).get("step") == S("starting_step") for x in rs_)
         chk.add(rid, "init: starting_step reaches the clip unmodified", ok2, "replace_step must be given starting_step", chk.loc(fi))
-        epsv = dict(ret[3]).get("eps")
         gsc = [e for e in r.events if e.kind == "call" and e.name == "new:GraphState"]
         ok3 = len(gsc) == 1 and dict(gsc[0].term[2]).get("eps") is not None
         if ok3:
@@ -304,6 +303,16 @@ def rule_clip(chk: Check, model, rid: str, cv: CompiledView):
             want = T.mk_ite(S("randomize_eps"), T.mk_call("jax.random.choice", [T.mk_index(T.mk_call("jax.random.split", [_rng0(), ], [("num", T.const(5))]), T.ZERO), S("self.max_eps")], [("shape", ("tuple", ()))]), S("starting_eps"))
             ok3 = T.assume(e0, S("randomize_eps"), False) == S("starting_eps") and dict(gsc[0].term[2]).get("step") == S("starting_step")
         chk.add(rid, "init: starting_eps / starting_step reach the graph state unmodified", ok3, "GraphState(eps=..., step=...) must receive the user's starting_eps / starting_step", chk.loc(fi))
+
+
+def _clipped_both(t) -> bool:
+    """t is <x>.replace_step(..).replace_eps(..) or <x>.replace_eps(..).replace_step(..): the two clips write disjoint fields (step / eps and
+    timings_eps, checked by rule_clip) and read only the timings argument, so their order is immaterial."""
+    if t[0] != "call":
+        return False
+    outer = T.call_name(t).rsplit(".", 1)[-1]
+    other = {"replace_step": "replace_eps", "replace_eps": "replace_step"}.get(outer)
+    return other is not None and any(x[0] == "call" and T.call_name(x).endswith("." + other) for x in T.walk(t) if x is not t)
 
 
 def _rng0():
@@ -321,8 +330,16 @@ def rule_params(chk: Check, model, rid: str):
         ok = len(st) == 1
         if ok:
             v = st[0].term
-            ok = v[0] == "call" and T.call_name(v).endswith(".get") and len(v[2]) == 2 and v[2][0] == st[0].key and v[2][1][0] == "call" and T.call_name(v[2][1]).endswith(".init_params")
-            ok = ok and mentions(v[2][1], "self.nodes")
+            if v[0] == "call" and T.call_name(v).endswith(".get"):
+                # params[name] = params.get(name, <default>)
+                ok = st[0].guard == T.TRUE and len(v[2]) == 2 and v[2][0] == st[0].key and mentions(v[1], "params")
+                dflt = v[2][1] if ok else T.NONE
+            else:
+                # if name not in params: params[name] = <default>
+                g = st[0].guard
+                ok = g[0] == "not" and g[1][0] == "in" and g[1][1] == st[0].key and mentions(g[1][2], "params")
+                dflt = v
+            ok = ok and dflt[0] == "call" and T.call_name(dflt).endswith(".init_params") and mentions(dflt, "self.nodes")
         chk.add(rid, f"{q}: user params first", bool(ok), "params[name] must be params.get(name, self.nodes[name].init_params(...))", chk.loc(fi))
         ret = r.ret
         rep = [x for x in T.walk(ret) if x[0] == "replace" or (x[0] == "call" and T.call_name(x).endswith(".replace"))]
